@@ -98,6 +98,9 @@ inductive Op (α : Type) where
   | reset
   | current
   | windowFrames
+  /-- `rms.clone().into_parts()`: what the detector holds — the window (oldest frame first, as
+      `Fixed::iter` presents it) and `square_sum` -/
+  | parts
 deriving Repr
 
 /-- what it observes -/
@@ -105,6 +108,7 @@ inductive Obs (α : Type) where
   | frame (f : List α)
   | unit
   | len (n : Nat)
+  | parts (window : List (List α)) (sum : List α)
 deriving Repr
 
 def Rms.step (sqrt : α → α) (r : Rms α) : Op α → Rms α × Obs α
@@ -113,6 +117,7 @@ def Rms.step (sqrt : α → α) (r : Rms α) : Op α → Rms α × Obs α
   | .reset => (r.reset, .unit)
   | .current => (r, .frame (r.current sqrt))
   | .windowFrames => (r, .len r.windowFrames)
+  | .parts => (r, .parts ((List.range r.windowFrames).map fun i => r.chans.map fun c => c.window.getD i zero) (r.chans.map Chan.sum))
 
 /-- run a whole history, collecting every observation -/
 def Rms.run (sqrt : α → α) : Rms α → List (Op α) → Rms α × List (Obs α)
